@@ -419,6 +419,8 @@ class Interp:
                 return Arr(("heaviside", vs[0].e, vs[1].e))
             if name == "ones_like" and len(vs) == 1 and isinstance(vs[0], Arr):
                 return Arr(ONE)
+            if name == "zeros_like" and len(vs) == 1 and isinstance(vs[0], Arr):
+                return Arr(ZERO)
             if name == "zeros" and len(vs) == 1 and isinstance(vs[0], Opaque) and vs[0].what == "size":
                 return Arr(ZERO)
             if name == "isclose" and len(vs) == 2 and isinstance(vs[0], Arr) and isinstance(vs[1], Sc) and vs[1].e == ZERO \
